@@ -172,6 +172,12 @@ impl<'a> Lowerer<'a> {
         let none = || Path::<PortableForm>::from_segments_unchecked(Vec::<String>::new());
         match t {
             Ty::Prim(p) => mk_type(none(), vec![], TypeDef::Primitive(prim_def(*p)), vec![]),
+            Ty::StrSlice => mk_type(none(), vec![], TypeDef::Primitive(TypeDefPrimitive::Str), vec![]),
+            // keyed as the exact pointer type (it sat under another pointer): same content as the pointee
+            Ty::Ptr(_, inner) => {
+                let k = inner.key();
+                self.build(id, &k)
+            }
             Ty::Def(d, args) => {
                 let def = &self.prog.defs[*d];
                 self.insts.push(Inst {
@@ -213,7 +219,11 @@ impl<'a> Lowerer<'a> {
                 )
             }
             Ty::Tuple(a) => {
-                let fields = a.iter().map(|t| sym(self.intern(t))).collect();
+                let fields = a
+                    .iter()
+                    .filter(|t| !matches!(t, Ty::Phantom(_)))
+                    .map(|t| sym(self.intern(t)))
+                    .collect();
                 mk_type(none(), vec![], TypeDef::Tuple(TypeDefTuple { fields }), vec![])
             }
             Ty::Array(n, t) => {
@@ -402,7 +412,7 @@ impl<'a> Lowerer<'a> {
                 TypeDef::Composite(TypeDefComposite { fields: vec![] }),
                 vec!["PhantomData placeholder, this type should be filtered out".into()],
             ),
-            Ty::Param(_) | Ty::Assoc(_) | Ty::Ptr(..) => {
+            Ty::Param(_) | Ty::Assoc(_) | Ty::BitVecP(..) => {
                 panic!("lower: type is not closed/normalized: {t:?}")
             }
         }
